@@ -96,6 +96,40 @@ Definition d_static_raw (cst : bool) (t : ty) (x : ident) (v : Z) : M unit := fu
               sstat := set_stat (cur_fn s) ((x, {| ety := t; econst := cst; edims := []; evals := [v] |}) :: statics_of (cur_fn s) s) (sstat s);
               sout := sout s |}).
 
+(* plain assignment `x = v;` to a name find_variable does not know creates the variable in the current
+   scope (managers/variables/assignment.cpp: the value is stored in a fresh Variable; any int64 fits);
+   compound assignment, ++/-- and element assignment report "Undefined variable" *)
+Definition tlong : ty := {| base := TLong; uns := false |}.
+Definition d_assign (lv : lval) (x : ident) (idx : list Z) (v : Z) : M unit := fun s =>
+  match lv, dget x s with
+  | LVar _, None => m_declare false false tlong x [] [v] s
+  | _, _ => d_write x idx v s
+  end.
+
+(* executors/control_flow_executor.cpp:execute_for_statement: a declaration in the init clause is
+   skipped when the name already exists in the CURRENT scope, and a variable it did declare is erased
+   from the current scope when the loop ends normally (variable_exists_in_current_scope /
+   remove_variable_from_current_scope) *)
+Definition top_has (x : ident) : M bool := fun s =>
+  (Val (match sframes s with
+        | f :: _ => match fscopes f with sc :: _ => match assoc x sc with Some _ => true | None => false end | [] => false end
+        | [] => false
+        end), s).
+Fixpoint remove_all {A} (x : ident) (l : list (ident * A)) : list (ident * A) :=
+  match l with [] => [] | (y, a) :: r => if Nat.eqb x y then remove_all x r else (y, a) :: remove_all x r end.
+Definition d_remove (x : ident) : M unit := fun s =>
+  match sframes s with
+  | f :: fr => (Val tt, {| sglob := sglob s;
+                           sframes := {| ffn := ffn f; fscopes := match fscopes f with sc :: r => remove_all x sc :: r | [] => [] end |} :: fr;
+                           sstat := sstat s; sout := sout s |})
+  | [] => (Val tt, s)
+  end.
+
+(* the first evaluation of a static's initialiser; a literal costs no fuel (fuel is a proof device:
+   this keeps Mech and Ref in step when the static is already known and Ref evaluates nothing) *)
+Definition lit_or (ev : expr -> M Z) (init : option expr) : M Z :=
+  match init with Some (ENum z) => ret z | Some e => ev e | None => ret 0 end.
+
 Section Mech.
 Variable blk : bool.
 Variable funcs : list func.
@@ -105,7 +139,7 @@ Definition blockm {A} (m : M A) : M A := if blk then m_push_scope ;;; finally m 
 Section WithRec.
 Variable ev : expr -> M Z.
 (* the supplied arguments: evaluate argument i in the callee's scope, convert, bind parameter i *)
-Fixpoint dbind_args (ps : list param) (es : list expr) : M unit :=
+Fixpoint dbind_args (ps : list param) (es : list expr) {struct es} : M unit :=
   match es with
   | [] => ret tt
   | e :: er =>
@@ -153,7 +187,7 @@ with mexec (n : nat) (st : stmt) {struct n} : M unit :=
     match st with
     | SDecl cst sta t x init =>
         if sta then
-          v <- (match init with Some e => meval k e | None => ret 0 end) ;;
+          v <- lit_or (meval k) init ;;
           lift (coerce t v) ;;;
           known <- m_static_known x ;;
           if known then ret tt
@@ -161,7 +195,7 @@ with mexec (n : nat) (st : stmt) {struct n} : M unit :=
         else v <- (match init with Some e => meval k e | None => ret 0 end) ;; m_declare false cst t x [] [v]
     | SArr cst t x dims init => vs <- eval_list (meval k) init ;; m_declare false cst t x dims vs
     | SAssign lv None e =>
-        v <- meval k e ;; tg <- lval_target (meval k) lv ;; d_write (fst tg) (snd tg) v
+        v <- meval k e ;; tg <- lval_target (meval k) lv ;; d_assign lv (fst tg) (snd tg) v
     | SAssign lv (Some o) e =>
         tg <- lval_target (meval k) lv ;; old <- d_read (fst tg) (snd tg) ;; v <- meval k e ;;
         r <- lift (arith o old v) ;; d_write (fst tg) (snd tg) r
@@ -175,11 +209,18 @@ with mexec (n : nat) (st : stmt) {struct n} : M unit :=
         if x =? 0 then ret tt
         else loop_step (blockm (exec_list (mexec k) body)) (mexec k (SWhile c body))
     | SFor init c upd body =>
-        blockm (exec_list (mexec k) init ;;;
-                x <- meval k c ;;
-                if x =? 0 then ret tt
-                else loop_step (blockm (exec_list (mexec k) body))
-                               (exec_list (mexec k) upd ;;; mexec k (SFor [] c upd body)))
+        let loop := (x <- meval k c ;;
+                     if x =? 0 then ret tt
+                     else loop_step (blockm (exec_list (mexec k) body))
+                                    (exec_list (mexec k) upd ;;; mexec k (SFor [] c upd body))) in
+        if blk then blockm (exec_list (mexec k) init ;;; loop)
+        else match init with
+             | [SDecl cst false t x ie] =>
+                 ex <- top_has x ;;
+                 if ex then loop
+                 else (mexec k (SDecl cst false t x ie) ;;; loop) ;;; d_remove x
+             | _ => exec_list (mexec k) init ;;; loop
+             end
     | SBreak => lift Brk
     | SContinue => lift Cnt
     | SReturn None => lift (Ret None)
